@@ -81,6 +81,30 @@ CHECKS = {
         "Tie rule per DESIGN 2.9; unit pairs inside D_ok.",
         "§4 C12",
     ),
+    "C01": (
+        "model-based stateful generation: Hypothesis histories of public operations in a fresh world; registry invariant after every step + free-abelian-group model of every value",
+        "Exploration over histories: after every step every newly interned unit (and periodically the whole registry) must have dimension = product of its base-unit factors' recorded dimensions, and every value's dimension must equal the dimension of the history-independent model of the expression that built it.",
+        "Base-unit dimensions are recorded at definition time; Unit.__init__ is wrapped from outside only to name the creating function in the bucket.",
+        "§4 C01, §2.3, §2.6",
+    ),
+    "C16": (
+        "structural differential (terminals, rules, LALR tables up to state bijection) between a parser freshly built by lark from measured.lark and the shipped _parser.py + Hypothesis grammar-derived sentences and token mutations + atheris coverage-guided differential fuzzing",
+        "Translation-validation style exploration: the table/terminal/rule comparison covers the table-driven part for all token sequences (counted obligations in the evidence); the sampled differential parse (both start symbols, accepted and rejected inputs) covers the runtime driver.",
+        "lark 1.3.1 from the wheelhouse regenerates tables isomorphic to the shipped lark-1.1.2 ones; atheris campaigns are only approximately repeatable (failing inputs are re-run in-process and saved).",
+        "§4 C16, §6",
+    ),
+    "C17": (
+        "Hypothesis (grammar-derived valid text, token mutations, alphabet strings with length-targeted numerals, arbitrary Unicode) + atheris coverage-guided fuzzing with the semantic oracle inside the target",
+        "Exploration: every input must end in a Unit/Quantity, ParseError or KeyError; same outcome on a second call; rejected input leaves name/symbol registries unchanged; accepted magnitudes are int/float as written and never NaN.",
+        "Magnitude type is decided by an independent regular expression for SIGNED_INT / SIGNED_FLOAT.",
+        "§4 C17",
+    ),
+    "C20": (
+        "harness-owned deterministic line-level thread scheduler (sys.settrace) driven by Hypothesis-generated schedules + exhaustive enumeration of all interleavings of the two __new__ windows",
+        "Exploration over schedules: 2-3 threads construct a never-before-constructed dimension/prefix/unit under generated schedules; all threads must get the same object, one registry entry, and later evaluation returns it; the two-thread __new__ window interleavings are enumerated exhaustively.",
+        "Line granularity, not bytecode granularity; C-level lru_cache internals are not pre-empted; a lock-based repair would be reported as harness deadlock (exit 2).",
+        "§4 C20",
+    ),
 }
 
 NOT_YET = {}
